@@ -279,17 +279,23 @@ Definition split_fiber (sp : sparams) (d : Z) (shape : option Z) (active : optio
                        sr_parts := ps |}
   end.
 
+(* which rank is split (tensor.py:1329-1334, and fiber.py "if rankid is not None: depth =
+   self._rankid2depth(rankid)" in every splitX): a rank id overrides the depth argument.  The
+   rank id is given as its index in the operand's rank-id list (rank_ids.index(rankid)). *)
+Definition eff_depth (rankid : option nat) (depth : nat) : nat :=
+  match rankid with Some r => r | None => depth end.
+
 (* Tensor._splitGeneric (tensor.py:1335-1344): rank ids [.., id, ..] -> [.., id.1, id.0, ..],
-   shape[depth] duplicated.  A rank id is its index in the operand; (i, Some b) = "id.b" *)
-Fixpoint split_ids (k : nat) (i : Z) (n : nat) : list (Z * option Z) :=
-  match n with
-  | O => []
-  | S n' =>
-    match k with
-    | O => (i, Some 1) :: (i, Some 0) :: map (fun j => (j, None)) (map (Z.add (i + 1)) (iota n'))
-    | S k' => (i, None) :: split_ids k' (i + 1) n'
-    end
-  end.
+   shape[depth] duplicated.  A rank id is the index of the operand's rank followed by the
+   ".1" / ".0" suffixes it has acquired, e.g. [0; 0; 1] = "M.0.1" *)
+Definition rid := list Z.
+
+Definition ids0 (n : nat) : list rid := map (fun i => [i]) (iota n).
+
+Definition split_ids (k : nat) (ids : list rid) : list rid :=
+  firstn k ids
+  ++ match nth_error ids k with Some r => [r ++ [1]; r ++ [0]] | None => [] end
+  ++ skipn (S k) ids.
 
 Fixpoint split_shape (k : nat) (shapes : list Z) : list Z :=
   match shapes with
